@@ -124,6 +124,8 @@ class Matcher:
                     self.annotate(alt, flags)
             elif o in ("MAX_REPEAT", "MIN_REPEAT"):
                 self.annotate(av[2], flags)
+            elif o in ("ASSERT", "ASSERT_NOT"):
+                self.annotate(av[1], flags)
 
     def test(self, op, av, pos, flags=None):
         if pos >= self.n:
@@ -213,6 +215,15 @@ class Matcher:
                         return self.m(sub, 0, p, g, lambda p2, g2: rep(count + 1, p2, g2) if (p2 > p or count < lo) else None)
                     return None
             return rep(0, pos, groups)
+        if o in ("ASSERT", "ASSERT_NOT"):
+            direction, sub = av
+            if direction != 1:
+                raise C.Unsupported("regex lookbehind")
+            # every character test on the way forks the path, so within one path the look-ahead is simply decided
+            r = self.m(list(sub), 0, pos, groups, lambda p, g: (p, g))
+            if (r is not None) == (o == "ASSERT"):
+                return rest(pos, groups if r is None or o == "ASSERT_NOT" else r[1])
+            return None
         if o == "GROUPREF":
             if av not in groups:
                 return None
